@@ -346,3 +346,43 @@ def rule_remainder_owner(prog: Program, modules: Optional[Set[str]] = None) -> L
                                         f"`{short(n, 60)}` takes a sign-preserving remainder/truncation outside odc.geo.math: for negative offsets the fractional part comes out negative instead of wrapping; use split_float / split_translation", fi.where(n)))
     out.append(Instance("R-REMAINDER", "asym-scan", OK, f"{n_seen} sign-preserving remainder calls outside odc.geo.math", "", nontrivial=False))
     return out
+
+
+# ---------------------------------------------------------------------------------------------
+# R-FALLBACK: a fallback value never suppresses the measurement it stands in for
+# ---------------------------------------------------------------------------------------------
+def rule_fallback(prog: Program, modules: Optional[Set[str]] = None) -> List[Instance]:
+    """A parameter named fallback_* stands in when the real value cannot be determined. Where a variable
+    is assigned either from the fallback or from a computation on the data, the computation must not be
+    conditioned on the fallback (being absent): otherwise merely supplying a fallback overrides what
+    the data says."""
+    from ..cfg import Conditions
+    from .guards import conds_at
+
+    out: List[Instance] = []
+    for fi in prog.all_functions(modules):
+        fbs = [p for p in fi.param_names() if p.startswith("fallback")]
+        if not fbs:
+            continue
+        cond = None
+        for fb in fbs:
+            from_fb: Dict[str, ast.AST] = {}
+            others: Dict[str, List[ast.AST]] = {}
+            for n in walk_own(fi.node):
+                if isinstance(n, ast.Assign) and len(n.targets) == 1 and isinstance(n.targets[0], ast.Name):
+                    t = n.targets[0].id
+                    if isinstance(n.value, ast.Name) and n.value.id == fb:
+                        from_fb[t] = n
+                    else:
+                        others.setdefault(t, []).append(n)
+            for t, st in from_fb.items():
+                for o in others.get(t, []):
+                    if fb in {x.id for x in ast.walk(o.value) if isinstance(x, ast.Name)}:
+                        continue
+                    if cond is None:
+                        cond = Conditions(fi.body)
+                    dep = [(e, p) for e, p in conds_at(cond, o) if fb in {x.id for x in ast.walk(e) if isinstance(x, ast.Name)}]
+                    out.append(Instance("R-FALLBACK", f"{fi.qual}#{t}<-{fb}", BAD if dep else OK,
+                                        f"`{short(o, 50)}` (the value taken from the data) is only reached when `{short(dep[0][0], 40)}` is {dep[0][1]}: supplying {fb} overrides the data" if dep
+                                        else f"`{t}` is computed from the data whether or not {fb} is supplied; the fallback applies only where the computation is impossible", fi.where(o)))
+    return out
